@@ -25,4 +25,6 @@ def gen_case(seed, tier, index=0):
         return wf.gen_case_dag(seed, tier, index, restart_bias=True)
     if index % 8 == 5:
         return wf.gen_case_repeating_restart(seed, tier, index)
+    if index % 4 == 0:
+        return wf.gen_case_stop_during_restart(seed, tier, index)
     return wf.gen_case_restart(seed, tier, index)
